@@ -85,6 +85,11 @@ type graph struct {
 	handlerOnEdges   map[string]map[string][]handlerPair
 	handlerPreNode   map[string][]handlerPair
 	handlerPreBranch map[string][][]handlerPair
+
+	// for the edges whose handlers change the type of the value (runtime-checked conversion,
+	// field mapping): how a value parked in the end node's channel is converted from / to a
+	// stream when a checkpoint is written / read
+	streamConvertPairOnEdges map[string]map[string]streamConvertPair
 }
 
 type newGraphConfig struct {
@@ -137,9 +142,10 @@ func newGraph(cfg *newGraphConfig) *graph {
 		stateGenerator: cfg.stateGenerator,
 		newOpts:        cfg.newOpts,
 
-		handlerOnEdges:   make(map[string]map[string][]handlerPair),
-		handlerPreNode:   make(map[string][]handlerPair),
-		handlerPreBranch: make(map[string][][]handlerPair),
+		handlerOnEdges:           make(map[string]map[string][]handlerPair),
+		streamConvertPairOnEdges: make(map[string]map[string]streamConvertPair),
+		handlerPreNode:           make(map[string][]handlerPair),
+		handlerPreBranch:         make(map[string][][]handlerPair),
 	}
 }
 
@@ -562,6 +568,8 @@ func (g *graph) updateToValidateMap() error {
 							g.handlerOnEdges[startNode] = make(map[string][]handlerPair)
 						}
 						g.handlerOnEdges[startNode][endNode.endNode] = append(g.handlerOnEdges[startNode][endNode.endNode], g.getNodeGenericHelper(endNode.endNode).inputConverter)
+						// the converter hands on values (stream chunks) of the end node's input type
+						g.setStreamConvertPairOnEdge(startNode, endNode.endNode, g.getNodeGenericHelper(endNode.endNode).inputStreamConvertPair)
 					}
 					continue
 				}
@@ -577,6 +585,8 @@ func (g *graph) updateToValidateMap() error {
 						transform: streamFieldMap(endNode.mappings),
 					})
 					g.fieldMappingRecords[endNode.endNode] = append(g.fieldMappingRecords[endNode.endNode], endNode.mappings...)
+					// a field mapping hands on map[string]any, whatever the start node's output type is
+					g.setStreamConvertPairOnEdge(startNode, endNode.endNode, defaultStreamConvertPair[map[string]any]())
 
 					// field mapping check
 					checker, err := validateFieldMapping(g.getNodeOutputType(startNode), g.getNodeInputType(endNode.endNode), endNode.mappings)
@@ -595,6 +605,13 @@ func (g *graph) updateToValidateMap() error {
 	}
 
 	return nil
+}
+
+func (g *graph) setStreamConvertPairOnEdge(startNode, endNode string, pair streamConvertPair) {
+	if _, ok := g.streamConvertPairOnEdges[startNode]; !ok {
+		g.streamConvertPairOnEdges[startNode] = make(map[string]streamConvertPair)
+	}
+	g.streamConvertPairOnEdges[startNode][endNode] = pair
 }
 
 func (g *graph) getNodeGenericHelper(name string) *genericHelper {
@@ -850,7 +867,7 @@ func (g *graph) compile(ctx context.Context, opt *graphCompileOptions) (*composa
 		}
 		inputPairs[END] = r.outputStreamConvertPair
 		outputPairs[START] = r.inputStreamConvertPair
-		r.checkPointer = newCheckPointer(inputPairs, outputPairs, opt.checkPointStore)
+		r.checkPointer = newCheckPointer(inputPairs, outputPairs, g.streamConvertPairOnEdges, opt.checkPointStore)
 
 		r.interruptBeforeNodes = opt.interruptBeforeNodes
 		r.interruptAfterNodes = opt.interruptAfterNodes
